@@ -1,4 +1,5 @@
 import RsyncModel.Proto
+import RsyncModel.ProtoFail
 import RsyncModel.Gen.ConnUse
 /-! # C18 — sessions terminate and do not interfere under any interleaving
 
@@ -73,9 +74,44 @@ def topologyOk : Bool :=
     "var lookupOnce sync.Once", "var lookupGroupOnce sync.Once"] &&
   wirePrimitives == [] &&
   -- sessions share no mutable state: no function assigns a field of *Server (outside NewServer) or a package-level variable
-  sharedWrites == []
+  sharedWrites == [] &&
+  -- and the only package-level variables are constants-in-disguise (option tables, an error value), the two
+  -- Once values and the receiver's identity (amRoot/inGroup, set at start-up and only read: sharedWrites = []): no pool, cache or counter
+  packageVars == ["internal/receiver.amRoot", "internal/receiver.inGroup", "internal/rsyncopts.debugWords",
+    "internal/rsyncopts.errNotYetImplemented", "internal/rsyncopts.gokrazyDefaults", "internal/rsyncopts.infoWords",
+    "internal/rsyncopts.tridgeDefaults", "internal/sender.lookupGroupOnce", "internal/sender.lookupOnce"]
 
 theorem topology : topologyOk = true := by decide +kernel
+
+/-! ## a session whose receiving side fails in the middle (D31)
+
+`ProtoFail`: the receiving endpoint has failed, owes its peer an error message and then closes; the
+sending peer S is anywhere in its program. Whether the failed endpoint keeps consuming what S still
+sends is a fact regenerated from the source (`Gen.ConnUse.receiverErrorDrains`: in rsyncd's deferred
+error handler of the receiving role, `go io.Copy(io.Discard, crd)` stands before the error frame is
+written). -/
+
+/-- **a failed session ends too**: with what the source does now, in every state in which the peer
+has not stopped some step is enabled — for all capacities (0 = `io.Pipe`, the transport of every
+local copy), every position of the peer in its program (in the middle of a file of any size), every
+length of the error message — and every step decreases `ProtoFail.measure`, so every schedule ends. -/
+theorem failing_receiver_ends (ca cb : Nat) (st : ProtoFail.St) (h : st.s ≠ []) :
+    (∃ st', ProtoFail.Step receiverErrorDrains ca cb st st') ∧
+    (∀ st', ProtoFail.Step receiverErrorDrains ca cb st st' → ProtoFail.measure st' < ProtoFail.measure st) := by
+  have hd : receiverErrorDrains = true := by decide
+  rw [hd]
+  exact ⟨ProtoFail.progress_drain ca cb st h, fun st' hs => ProtoFail.measure_decreases true ca cb st st' hs⟩
+
+/-- the generator stops requesting files once the session has failed (regenerated fact), so the
+number of further requests `g` in the model is what was already under way -/
+theorem generator_stops_on_failure : generatorStopsOnCancel = true := by decide
+
+/-- **and without the draining it did not** (kept as the kernel-checked counterexample of the defect
+that was repaired): the peer in the middle of a file, nobody reading, the error message stuck behind
+a rendezvous or a full pipe — not finished, no step enabled, for every message length and backlog. -/
+theorem failing_receiver_deadlocked_before_repair (ca cb msg : Nat) (s' : List SAct) (hmsg : 0 < msg) :
+    ¬ ∃ st', ProtoFail.Step false ca cb ⟨0, msg, SAct.sendB :: s', 0, ca, cb⟩ st' :=
+  ProtoFail.no_drain_deadlock_small ca cb msg s' hmsg
 
 /-- non-vacuity: a session over rendezvous pipes in both directions, three files -/
 example : Inv 0 0 (init [.recvA, .sendB, .recvA, .recvA, .sendB, .sendB, .sendB]) := init_inv 0 0 _
